@@ -234,12 +234,21 @@ func (l *Loaded) keyLayoutEnv(fn *ssa.Function, env *klEnv, depth int) *keyLayou
 					fail("non-constant rune")
 				}
 			case full == "encoding/binary.Write":
+				written := args[2]
+				if mi, isMI := written.(*ssa.MakeInterface); isMI {
+					written = mi.X
+				}
 				v := stripConv(args[2])
 				v, _ = env.resolve(v)
 				v = stripConv(v)
 				w := intWidth(v.Type())
 				if w == 0 {
 					fail("binary.Write of non-fixed-width value %s", Sym(v))
+				}
+				// the bytes written are those of the converted value: a narrowing conversion drops the high bytes of the field
+				if ww := intWidth(written.Type()); ww != 0 && ww < w {
+					fail("field %s (%d bits) is written as %d bits: ids that differ only in the dropped bits share one key", lastField(Sym(v)), w, ww)
+					w = ww
 				}
 				kl.segs = append(kl.segs, seg{kind: "fixed", n: int(w / 8), field: lastField(Sym(v)), src: Sym(v)})
 			case strings.HasPrefix(full, "(*bytes.Buffer)."):
